@@ -956,6 +956,8 @@ pub fn request_hosts() -> Vec<Option<String>> {
         Some("www.shop.org"),
         Some("nomatch.invalid"),
         Some("api.example.org.uk"),
+        Some("x.api.example.org"),
+        Some("apix.api.example.org"),
         Some(""),
     ]
     .iter()
@@ -1002,7 +1004,7 @@ pub fn request_schemes() -> Vec<Option<String>> {
 pub fn request_urls() -> Vec<String> {
     [
         "/a", "/A", "/a/b", "/a/B", "/a/12", "/a/12/c", "/a/12/C", "/a/xy", "/a/XY", "/xy/b", "/a?x=1", "/a?x=1&y=2", "/a?x=2", "/b", "/c", "/a/", "/a/12/d",
-        "/a/b/c", "/", "/a/x-y",
+        "/a/b/c", "/", "/a/x-y", "/a/12/xy", "/a/7n", "/a/12/7n",
     ]
     .iter()
     .map(|s| s.to_string())
@@ -1033,7 +1035,7 @@ pub fn request_header_lists() -> Vec<Vec<(String, String)>> {
     ]
 }
 
-fn marker_pool() -> Vec<MarkerSpec> {
+pub fn marker_pool() -> Vec<MarkerSpec> {
     vec![
         MarkerSpec { name: "n".into(), regex: "[0-9]+".into(), transformers: vec![] },
         MarkerSpec { name: "w".into(), regex: "([\\p{Ll}]|\\-)+?".into(), transformers: vec![] },
@@ -1042,6 +1044,10 @@ fn marker_pool() -> Vec<MarkerSpec> {
         MarkerSpec { name: "any".into(), regex: ".+?".into(), transformers: vec![] },
         MarkerSpec { name: "up".into(), regex: "([A-Z]+?)".into(), transformers: vec![] },
         MarkerSpec { name: "Sub2".into(), regex: "[a-z]+".into(), transformers: vec![] },
+        // names that have another name of the pool as a strict prefix ("n" / "nn", "sub" / "subx"): references are
+        // resolved longest name first
+        MarkerSpec { name: "nn".into(), regex: "[a-z]{2}".into(), transformers: vec![] },
+        MarkerSpec { name: "subx".into(), regex: "(x|y)".into(), transformers: vec![] },
     ]
 }
 
@@ -1067,6 +1073,8 @@ pub fn host_pool() -> Vec<Option<Template>> {
         Some(Template::parse("@sub.example.org.uk")),
         // a marker whose *name* has upper-case letters (names are case-sensitive whatever the host case policy)
         Some(Template::parse("@Sub2.example.net")),
+        // two markers, one name a strict prefix of the other
+        Some(Template::parse("@subx.@sub.example.org")),
     ]
 }
 
@@ -1174,6 +1182,8 @@ pub fn path_pool() -> Vec<Template> {
         // pattern rules that diverge on an *escaped* character (regex::escape protects '.', '-', '?'): the
         // prefix computation of the regex tree must not stop between the backslash and the character
         "/a.@n", "/a-@n", "/a.x?y=@w",
+        // marker names that are prefixes of one another
+        "/a/@n/@nn", "/a/@nn",
     ]
     .iter()
     .map(|s| Template::parse(s))
